@@ -132,6 +132,7 @@ struct Worker {
     stdin: ChildStdin,
     rx: Receiver<String>,
     pub restarts: u64,
+    pub confirmed_hangs: u32,
 }
 enum Answer {
     Line(String),
@@ -158,16 +159,32 @@ impl Worker {
                 }
             }
         });
-        Worker { child, stdin, rx, restarts: 0 }
+        Worker { child, stdin, rx, restarts: 0, confirmed_hangs: 0 }
     }
     fn restart(&mut self) {
         let _ = self.child.kill();
         let _ = self.child.wait();
         let n = self.restarts + 1;
+        let h = self.confirmed_hangs;
         *self = Worker::spawn();
         self.restarts = n;
+        self.confirmed_hangs = h;
     }
+    /// A timeout is confirmed by a second, much longer attempt in a fresh worker, so
+    /// that a descheduled process on a busy machine is not reported as a hang.
     fn ask(&mut self, line: &str, timeout: Duration) -> Answer {
+        match self.ask_once(line, timeout) {
+            Answer::Hang if self.confirmed_hangs < 3 => {
+                let again = self.ask_once(line, timeout * 6);
+                if matches!(again, Answer::Hang) {
+                    self.confirmed_hangs += 1;
+                }
+                again
+            }
+            other => other,
+        }
+    }
+    fn ask_once(&mut self, line: &str, timeout: Duration) -> Answer {
         if writeln!(self.stdin, "{}", line).is_err() || self.stdin.flush().is_err() {
             self.restart();
             return Answer::Died;
@@ -396,7 +413,18 @@ impl Ctx {
         let mr = self.model.ask(&format!("P r {}", h));
         self.t_model += t1.elapsed().as_secs_f64();
         let d3 = !self.model.is_null() && mr != mp;
-        if d1 || d2 || d3 {
+        if (d1 || d2 || d3) && self.report.disagreements.len() >= 4 {
+            // enough shrunk examples are on record: count the rest
+            self.report.bump("disagreements.not_shrunk");
+            if self.report.disagreements.len() < 20 {
+                self.report.disagreement(json!({
+                    "correspondence": "protobuf reader + conversion model (Model/Proto.v, Model/ProtoConv.v) vs parse_write_request / convert_prom_to_arrow",
+                    "case": {"kind": "prom", "hex": h, "origin": origin},
+                    "impl": {"parse": ip, "convert": ic}, "model": {"parse": mp, "convert": mc, "parse_release": mr},
+                    "shrunk": {"kind": "prom", "hex": h}, "oracle_failed": false,
+                }));
+            }
+        } else if d1 || d2 || d3 {
             let shrunk = ddmin(bytes, &mut |cand: &[u8]| {
                 let (p, c) = impl_prom(&mut self.worker, cand);
                 let hh = hex(cand);
@@ -430,6 +458,11 @@ impl Ctx {
                 None
             };
             if let Some(c) = crash {
+                if self.report.oracle_violations.len() >= 6 {
+                    self.report.bump("crashes.not_shrunk");
+                    self.report.oracle_violation("", &format!("{} {} on a request body ({} bytes)", what, c, bytes.len()), json!({"kind": "prom", "hex": hex(bytes), "origin": origin}));
+                    return;
+                }
                 let shrunk = ddmin(bytes, &mut |cand: &[u8]| {
                     let (p, cc) = impl_prom(&mut self.worker, cand);
                     [p.as_str(), cc.as_str()].iter().any(|o| o.starts_with("PANIC") || *o == "HANG" || *o == "ABORT")
@@ -460,159 +493,7 @@ fn replay(args: &Args, path: &str) -> ! {
             if let Some(rt) = case["request"].as_str() {
                 let req = parse_request_text(rt);
                 let bad = prom_oracle(&req, &ic, false);
-                println!("oracle failures: {:?}", bad);
-                failed |= !bad.is_empty();
-            }
-        }
-        "handler" => {
-            let body = unhex(case["body_hex"].as_str().unwrap_or(""));
-            let mut env = HandlerEnv::new();
-            let (st, _, fl) = env.post(body.clone(), true);
-            let dec = snap::raw::Decoder::new().decompress_vec(&body).ok();
-            let ms = model.ask(&format!("H d {}", dec.as_ref().map(|d| hex(d)).unwrap_or("-".into())));
-            println!("status impl {} model {}\nflushed {:?}", st, ms, fl);
-            failed = st == "PANIC" || (!model.is_null() && st != ms);
-        }
-        "otlp" => {
-            use prost::Message;
-            let bytes = unhex(case["hex"].as_str().unwrap_or(""));
-            let req = opentelemetry_proto::tonic::collector::metrics::v1::ExportMetricsServiceRequest::decode(&bytes[..]).expect("decode");
-            let out = catch(AssertUnwindSafe(|| cardinalsin::api::ingest::otlp::export_request_to_arrow(&req).map_err(|e| e.to_string())));
-            let bad = otlp::oracle(&req, &out);
-            println!("request: {:?}\noracle failures: {:?}", otlp::request_text(&req), bad);
-            failed = !bad.is_empty();
-        }
-        "otlp_bytes" => {
-            let r = worker.ask(&format!("T {}", case["hex"].as_str().unwrap_or("")), WATCHDOG);
-            let s = match r { Answer::Line(l) => l, Answer::Hang => "HANG".into(), Answer::Died => "ABORT".into() };
-            println!("otlp bytes -> {}", s);
-            failed = s.starts_with("PANIC") || s == "HANG" || s == "ABORT";
-        }
-        "flight" => {
-            let r = worker.ask(&format!("F {}", case["frames"].as_str().unwrap_or("")), WATCHDOG);
-            let s = match r { Answer::Line(l) => l, Answer::Hang => "HANG".into(), Answer::Died => "ABORT".into() };
-            println!("flight frames -> {}", s);
-            failed = s.starts_with("PANIC") || s == "HANG" || s == "ABORT";
-        }
-        _ => println!("unknown replay kind {}", kind),
-    }
-    std::process::exit(if failed { 1 } else { 0 });
-}
-
-fn parse_request_text(s: &str) -> Vec<wire::GSeries> {
-    if s == "-" {
-        return vec![];
-    }
-    s.split('/')
-        .map(|ser| {
-            let (ls, ss) = ser.split_once('|').unwrap_or((ser, ""));
-            wire::GSeries {
-                labels: ls.split(',').filter(|x| !x.is_empty()).map(|l| { let (a, b) = l.split_once(':').unwrap_or((l, "")); wire::GLabel { name: unhex(a), value: unhex(b) } }).collect(),
-                samples: ss.split(',').filter(|x| !x.is_empty()).map(|x| { let (t, v) = x.split_once(':').unwrap_or((x, "0")); wire::GSample { ts: t.parse().unwrap_or(0), bits: v.parse().unwrap_or(0) } }).collect(),
-            }
-        })
-        .collect()
-}
-
-fn main() {
-    if std::env::args().nth(1).as_deref() == Some("worker") {
-        worker_main();
-        return;
-    }
-    let args = Args::parse();
-    csv_common::quiet_panics();
-    if let Some(path) = &args.replay {
-        replay(&args, path);
-    }
-    let thorough = args.thorough();
-    let n_structured = if thorough { 40_000 } else { 2_000 };
-    let n_malformed = if thorough { 150_000 } else { 5_000 };
-    let n_handler = if thorough { 2_000 } else { 150 };
-    let n_otlp = if thorough { 20_000 } else { 1_200 };
-    let n_otlp_bytes = if thorough { 20_000 } else { 1_000 };
-    let n_flight = if thorough { 6_000 } else { 400 };
-    // `--only prom|otlp|flight` restricts the run to one protocol (debugging aid)
-    let only = args.get("only").unwrap_or("").to_string();
-    let (n_structured, n_malformed) = if only.is_empty() || only == "prom" { (n_structured, n_malformed) } else { (0, 0) };
-    let (n_otlp, n_otlp_bytes) = if only.is_empty() || only == "otlp" { (n_otlp, n_otlp_bytes) } else { (0, 0) };
-    let n_flight = if only.is_empty() || only == "flight" { n_flight } else { 0 };
-
-    let mut cx = Ctx { model: Model::spawn(&args.model), worker: Worker::spawn(), report: Report::new("C17"), t_model: 0.0, t_worker: 0.0 };
-    let mut rng = Rng::new(args.seed);
-    let mut henv = HandlerEnv::new();
-    let t_start = std::time::Instant::now();
-    let mut lap = t_start;
-    let mut laps: Vec<String> = Vec::new();
-    macro_rules! lap {
-        ($name:expr) => {{
-            let now = std::time::Instant::now();
-            laps.push(format!("{} {:.1}s", $name, (now - lap).as_secs_f64()));
-            lap = now;
-        }};
-    }
-
-    // ------------------------------------------------ 0. corpus of hostile inputs
-    for (bytes, name) in wire::corpus() {
-        cx.report.case(None);
-        cx.report.bump(name);
-        cx.report.bump("stream.malformed");
-        let (ip, ic, _) = cx.check_bytes(&bytes, name);
-        cx.no_crash_oracle(&bytes, &ip, &ic, name);
-        // the same body through the public handler
-        let body = snap::raw::Encoder::new().compress_vec(&bytes).unwrap();
-        let (st, _, _) = henv.post(body.clone(), false);
-        cx.report.impl_runs += 1;
-        let (d, ms) = cx.model.differs(&format!("H d {}", hex(&bytes)), &st);
-        if st == "PANIC" {
-            cx.report.oracle_violation("", &format!("handle_remote_write panicked on corpus input {}", name), json!({"kind": "handler", "body_hex": hex(&body), "decompressed_hex": hex(&bytes)}));
-        } else if d {
-            cx.report.disagreement(json!({"correspondence": "handler status model (ProtoConv.handle) vs handle_remote_write", "case": {"kind": "handler", "body_hex": hex(&body)}, "impl": st, "model": ms, "shrunk": {"kind": "handler", "body_hex": hex(&body)}, "oracle_failed": false}));
-        }
-    }
-
-    lap!("corpus");
-    // ------------------------------------------------ 1. structured remote-write
-    let handler_every = (n_structured / n_handler.max(1)).max(1);
-    for k in 0..n_structured {
-        let mut r = rng.fork();
-        let mut bumps: Vec<String> = Vec::new();
-        let opts = wire::GenOpts { invalid_utf8: false, reserved_names: r.chance(1, 6) };
-        let req = wire::gen_request(&mut r, &opts, &mut |s| bumps.push(s.to_string()));
-        let canonical = r.chance(1, 2);
-        let (enc, feats) = if canonical { (wire::encode_canonical(&req), vec![]) } else { wire::encode_variant(&req, &mut r) };
-        let text = wire::request_text(&req);
-        let total: usize = req.iter().map(|t| t.samples.len()).sum();
-        cx.report.case(if total > 0 { Some(&text) } else { None });
-        cx.report.bump("stream.structured");
-        cx.report.bump(if canonical { "encoding.canonical" } else { "encoding.variant" });
-        for f in &feats {
-            cx.report.bump(&format!("encoding.{}", f));
-        }
-        for b in &bumps {
-            cx.report.bump(b);
-        }
-        let (ip, ic, differs) = cx.check_bytes(&enc.buf, "structured");
-        if k < 3 {
-            cx.report.sample(json!({"request": text, "bytes": hex(&enc.buf), "impl_parse": ip, "impl_convert": ic}));
-        }
-        // the canonical encoder of the harness is the model's encoder
-        if canonical {
-            let (d, me) = cx.model.differs(&format!("E {}", text), &hex(&enc.buf));
-            if d {
-                cx.report.disagreement(json!({"correspondence": "hand encoder of the harness vs enc_request of the model", "case": {"kind": "prom", "hex": hex(&enc.buf), "request": text}, "impl": hex(&enc.buf), "model": me, "shrunk": {"kind": "prom", "hex": hex(&enc.buf)}, "oracle_failed": false}));
-            }
-            // parse_encode on the implementation: the reader returns exactly the request
-            if ip != format!("OK {}", text) {
-                cx.report.oracle_violation("", &format!("canonical encoding of a well-formed request decoded as {}", &ip[..ip.len().min(200)]), json!({"kind": "prom", "hex": hex(&enc.buf), "request": text}));
-            }
-        }
-        // oracle on what the conversion produced (the decoded request is `req` unless
-        // a non-canonical feature changes it: repeated scalars keep the last one, which
-        // the generator places last, so `req` stays the expected content)
-        let bad = prom_oracle(&req, &ic, false);
-        if !bad.is_empty() && !differs_only_by_variant(&feats) {
-            cx.report.oracle_violation("", &bad.join("; "), json!({"kind": "prom", "hex": hex(&enc.buf), "request": text}));
-        } else if !bad.is_empty() {
+        if !bad.is_empty() {
             cx.report.oracle_violation("", &bad.join("; "), json!({"kind": "prom", "hex": hex(&enc.buf), "request": text, "features": feats}));
         }
         let _ = differs;
@@ -793,7 +674,7 @@ fn main() {
     // ------------------------------------------------ 4. Arrow Flight DoPut
     for _ in 0..n_flight {
         let mut r = rng.fork();
-        let (frames, class) = gen_flight(&mut r);
+        let (frames, class, nrows) = gen_flight(&mut r);
         cx.report.case(None);
         cx.report.bump("stream.flight");
         cx.report.bump(class);
@@ -805,8 +686,11 @@ fn main() {
         };
         cx.report.impl_runs += 1;
         cx.report.bump(&format!("flight.{}", s.split(' ').next().unwrap_or("")));
+        if (class == "flight.valid" || class == "flight.zero_rows") && s != format!("ok {}", nrows) {
+            cx.report.oracle_violation("", &format!("a valid Flight DoPut stream of {} rows was answered with {}", nrows, &s[..s.len().min(120)]), json!({"kind": "flight", "frames": line}));
+        }
         if s.starts_with("PANIC") || s == "HANG" || s == "ABORT" {
-            // shrink over frames, then over the bytes of the offending frame
+            // shrink over frames
             let shrunk = ddmin(&frames, &mut |cand: &[(Vec<u8>, Vec<u8>)]| {
                 let l = cand.iter().map(|(h, b)| format!("{}:{}", hex(h), hex(b))).collect::<Vec<_>>().join(",");
                 match cx.worker.ask(&format!("F {}", l), WATCHDOG) {
@@ -815,8 +699,7 @@ fn main() {
                 }
             });
             let l = shrunk.iter().map(|(h, b)| format!("{}:{}", hex(h), hex(b))).collect::<Vec<_>>().join(",");
-            let class = if class == "flight.valid" || class == "flight.zero_rows" { "" } else { flight_class(&s) };
-            cx.report.oracle_violation(class, &format!("Flight DoPut frames ({}): {}", class_name(class), &s[..s.len().min(200)]), json!({"kind": "flight", "frames": l}));
+            cx.report.oracle_violation("", &format!("Flight DoPut frames ({}): {}", class, &s[..s.len().min(200)]), json!({"kind": "flight", "frames": l}));
         }
     }
 
@@ -827,17 +710,7 @@ fn main() {
     cx.report.write(&args.out);
 }
 
-fn differs_only_by_variant(_feats: &[&str]) -> bool {
-    false
-}
-fn flight_class(_s: &str) -> &'static str {
-    ""
-}
-fn class_name(c: &str) -> &str {
-    if c.is_empty() { "unclassified" } else { c }
-}
-
-fn gen_flight(rng: &mut Rng) -> (Vec<(Vec<u8>, Vec<u8>)>, &'static str) {
+fn gen_flight(rng: &mut Rng) -> (Vec<(Vec<u8>, Vec<u8>)>, &'static str, usize) {
     use arrow_array::{Float64Array, RecordBatch, StringArray, TimestampNanosecondArray};
     use arrow_schema::{DataType, Field, Schema, TimeUnit};
     let n = if rng.chance(1, 8) { 0 } else { rng.range_usize(1, 4) };
@@ -860,22 +733,22 @@ fn gen_flight(rng: &mut Rng) -> (Vec<(Vec<u8>, Vec<u8>)>, &'static str) {
     let fd = cardinalsin::api::ingest::flight_ingest::batch_to_flight_data(&batch).unwrap();
     let mut frames: Vec<(Vec<u8>, Vec<u8>)> = fd.iter().map(|f| (f.data_header.to_vec(), f.data_body.to_vec())).collect();
     match rng.below(10) {
-        0 | 1 => (frames, if n == 0 { "flight.zero_rows" } else { "flight.valid" }),
+        0 | 1 => (frames, if n == 0 { "flight.zero_rows" } else { "flight.valid" }, n),
         2 => {
             // random bytes as frames
             let k = rng.range_usize(1, 3);
-            ((0..k).map(|_| (wire::random_bytes(rng).0, wire::random_bytes(rng).0)).collect(), "flight.random_frames")
+            ((0..k).map(|_| (wire::random_bytes(rng).0, wire::random_bytes(rng).0)).collect(), "flight.random_frames", n)
         }
         3 => {
             frames.remove(0);
-            (frames, "flight.schema_missing")
+            (frames, "flight.schema_missing", n)
         }
         4 => {
             for f in frames.iter_mut().skip(1) {
                 let l = f.1.len();
                 f.1.truncate(if l == 0 { 0 } else { rng.below(l as u64) as usize });
             }
-            (frames, "flight.body_truncated")
+            (frames, "flight.body_truncated", n)
         }
         5 | 6 => {
             let i = rng.below(frames.len() as u64) as usize;
@@ -885,7 +758,7 @@ fn gen_flight(rng: &mut Rng) -> (Vec<(Vec<u8>, Vec<u8>)>, &'static str) {
                 frames[i].0 = m;
             }
             let _ = e;
-            (frames, "flight.header_mutated")
+            (frames, "flight.header_mutated", n)
         }
         7 => {
             let i = rng.below(frames.len() as u64) as usize;
@@ -896,11 +769,11 @@ fn gen_flight(rng: &mut Rng) -> (Vec<(Vec<u8>, Vec<u8>)>, &'static str) {
                 let v: u32 = *rng.pick(&[0xFFFF_FFFFu32, 0x7FFF_FFFF, 0x8000_0000, 0, 1, 0x0000_FFFF]);
                 frames[i].0[at..at + 4].copy_from_slice(&v.to_le_bytes());
             }
-            (frames, "flight.header_word_overwritten")
+            (frames, "flight.header_word_overwritten", n)
         }
         8 => {
             frames.reverse();
-            (frames, "flight.frames_reordered")
+            (frames, "flight.frames_reordered", n)
         }
         _ => {
             if frames.len() > 1 {
@@ -909,7 +782,7 @@ fn gen_flight(rng: &mut Rng) -> (Vec<(Vec<u8>, Vec<u8>)>, &'static str) {
                 frames.push(extra);
                 frames[i].1 = (0..rng.range_usize(0, 32)).map(|_| rng.below(256) as u8).collect();
             }
-            (frames, "flight.body_replaced")
+            (frames, "flight.body_replaced", n)
         }
     }
 }
